@@ -75,7 +75,7 @@ Definition ex_ctx : ctx nat (list nat) (list nat) nat unit :=
               | _ => [] end)
     (fun _ _ st => Ok (true, st)) (fun t => Nat.eqb t 0) 0 (fun l => l) (fun _ => [])
     (fun d => Z.of_nat (length d)) (fun d _ => d) (fun _ => []) (fun _ _ => Raise KeyError) (fun _ => tt) (fun l => l)
-    (fun t => Z.of_nat t) (fun _ _ => 0%Z).
+    (fun _ _ => Raise KeyError) (fun t => Z.of_nat t) (fun _ _ => 0%Z).
 Example C12_example :
   exists ts w, VT_init ex_ctx (VT_blank ex_ctx) [0; 1; 2; 3] [] = Ok (tt, ts, w) /\
     (exists ts', VT_infer ex_ctx 5 ts [1; 2] = Ok (([2; 4], [0; 1; 3], [1; 3]), ts')) /\
